@@ -249,11 +249,18 @@ def validateChain (roots : List Cert) (sigOK : SigOracle) (o : Opts) (raw : List
           | some p => .ok p
           | none => .error .notEquivalent
 
+/-- The range loop of `IsPrecertificate` over the extensions with the poison OID; `found` is the loop's variable.
+Its shape is regenerated (`Gen.poisonLoop*`): a malformed poison extension is an error wherever it stands; a
+well-formed one either ends the loop (`StopsAtFirst`) or is recorded and the loop goes on. -/
+def poisonLoop : Bool → List PoisonExt → Except Unit Bool
+  | found, [] => .ok (if Gen.poisonLoopFinalReturn = "false" then false else found)
+  | found, p :: rest =>
+    if Gen.poisonInvalid p.critical p.valueIsNull then .error ()
+    else if Gen.poisonLoopStopsAtFirst then .ok true
+    else poisonLoop (if Gen.poisonLoopMarks = "" then found else true) rest
+
 /-- `IsPrecertificate` -/
-def isPrecertificate (c : Cert) : Except Unit Bool :=
-  match c.poison with
-  | [] => .ok false
-  | p :: _ => if Gen.poisonInvalid p.critical p.valueIsNull then .error () else .ok true   -- the loop returns at the first one
+def isPrecertificate (c : Cert) : Except Unit Bool := poisonLoop false c.poison
 
 /-- `verifyAddChain(li, req, expectingPrecert)` -/
 def verifyAddChain (roots : List Cert) (sigOK : SigOracle) (o : Opts) (raw : List (Option Cert)) (expectingPrecert : Bool) :
